@@ -32,11 +32,13 @@ EDGE_KINDS = {
     "numeric_landmark": ue.NumericLandmark,
     "prior": ue.PriorEdge,
     "numeric_prior": ue.NumericPriorEdge,
+    "likelihood_prior": ue.LikelihoodPriorEdge,
     "distance": ue.DistanceEdge,
     "midpoint": ue.MidpointEdge,
     "point_prior_xy": ue.PointPriorXY,
     "visual_range": ue.VisualRange,
     "prior_tag_p": ue.PriorTagP,
+    "robust_odometry_se2": ue.RobustOdometrySE2,
 }
 
 
@@ -485,8 +487,8 @@ def gen_opt_workload(rng, opts=None):
         # custom edges
         if o["allow_custom"] and rng.random() < 0.35:
             for _ in range(rng.randint(1, 2)):
-                ck = rng.choice(["prior", "numeric_prior", "distance", "midpoint"])
-                if ck in ("prior", "numeric_prior"):
+                ck = rng.choice(["prior", "numeric_prior", "likelihood_prior", "distance", "midpoint"])
+                if ck in ("prior", "numeric_prior", "likelihood_prior"):
                     i = rng.choice(idxs)
                     est = boxplus(verts[i][1], rand_delta(rng, t, meas_noise * scale, meas_noise))
                     n = est.COMPACT_DIMENSIONALITY
